@@ -92,6 +92,25 @@ class C28(core.Check):
         cs.append(("rt", [P, A0, A1, A2], ("obj", 3, [p12, ("int", 9), ("str", "m"), ("obj", 0, [("int", 3), ("int", 4)])])))
         cs.append(("rt", [P, A0, A1, A2], ("obj", 2, [p12, ("int", 9), ("list", [])])))
         cs.append(("load", [P, A0, A1, A2], 3, ("dict", [("inner", ("dict", [("x", ("int", 1))])), ("_k", ("dict", []))])))
+        # union members that validate in __post_init__: the earlier member REJECTS the stored later member's dict
+        for exc in D.EXCS:
+            for kind in ("opt", "union"):
+                Pc = (("chk", "raw", "n", 0, 100, exc), [("n", ("any",), ("d", ("int", 0)))])
+                Ct = ("raw", [("n", ("any",), ("d", ("int", 0)))])
+                Lv = ("raw", [("level", (kind, [0, 1]), ("d", ("null",))), ("g", ("any",), ("d", ("null",)))])
+                cs.append(("rt", [Pc, Ct, Lv], ("obj", 2, [("obj", 1, [("int", 500)]), ("null",)])))       # Count(500): Percent rejects, Count takes it
+                cs.append(("rt", [Pc, Ct, Lv], ("obj", 2, [("obj", 0, [("int", 50)]), ("null",)])))
+                cs.append(("rt", [Pc, Ct, Lv], ("obj", 2, [("obj", 1, [("int", 50)]), ("null",)])))        # ambiguous: K3
+        cs.append(("load", [(("chk", "iceraw", "n", 0, 100, "Rejected"), [("n", ("any",), ("d", ("int", 500)))])], 0, ("dict", [])))
+        cs.append(("load", [(("chk", "iceraw", "n", 0, 100, "Rejected"), [("n", ("any",), ("d", ("int", 5)))])], 0, ("dict", [("n", ("int", 101))])))
+        # sizes around the limits libraries put on what they unpack (msgpack < 1.0 defaults): 2^15 map items, 2^17 array items, 2^20 bytes of str
+        G = ("raw", [("g", ("any",), ("d", ("null",)))])
+        for n in (2 ** 15, 2 ** 15 + 1):
+            cs.append(("rt", [G], ("obj", 0, [("dict", [(f"k{i:05d}", ("int", i)) for i in range(n)])])))
+        for n in (2 ** 17, 2 ** 17 + 1):
+            cs.append(("rt", [G], ("obj", 0, [("list", [("int", i & 1) for i in range(n)])])))
+        for n in (2 ** 20, 2 ** 20 + 1):
+            cs.append(("rt", [("iceraw", G[1])], ("obj", 0, [("list", [("str", "s" * n), ("int", 1)])])))
         # histories in one process: a failed serialisation must not change what comes after it; the same bytes load twice
         good = ("obj", 1, [p12, ("list", [("int", 1), ("dict", [("z", ("list", []))])])])
         for base in ("raw", "iceraw", "icetyme", "reg"):
@@ -103,7 +122,7 @@ class C28(core.Check):
     def generate(self, rng, n, tier):
         for _ in range(n):
             r = rng.random()
-            yield D.gen_rt(rng) if r < 0.5 else D.gen_load(rng) if r < 0.7 else D.gen_seq(rng)
+            yield D.gen_rt(rng) if r < 0.42 else D.gen_rt_validated(rng) if r < 0.5 else D.gen_load(rng) if r < 0.7 else D.gen_seq(rng)
 
     # ---------------------------------------------------------------- wire
     @staticmethod
@@ -393,9 +412,6 @@ class C28(core.Check):
         schema = case[1]
         for st, so in zip(self._steps(case), obs):
             cl = self._step_clauses(so)
-            if "update-positional-raised-NameError" in cl:
-                ids.add("C28-K4")          # open until the fix commit reaches the tree under test
-                cl = [c for c in cl if c != "update-positional-raised-NameError"]
             if not cl:
                 continue
             if st[0] != "rt" or not all(c.endswith("-not-equal-or-other-class") for c in cl):
@@ -410,7 +426,6 @@ class C28(core.Check):
                 ids.add("C28-K3")
             else:
                 return None
-        ids = ids - {"C28-K4"} if len(ids) > 1 else ids
         return sorted(ids)[0] if ids else None
 
     def nontrivial(self, case, obs):
@@ -493,6 +508,10 @@ class C28(core.Check):
                 for i, x in enumerate(t[2]):
                     for y in variants(x):
                         yield ("obj", t[1], t[2][:i] + [y] + t[2][i + 1:])
+            elif t[0] in ("list", "dict") and len(t[1]) > 512:
+                # a size-class witness: shrink by halves / by one, not element by element
+                yield (t[0], t[1][:len(t[1]) // 2])
+                yield (t[0], t[1][:-1])
             elif t[0] == "list":
                 for i, x in enumerate(t[1]):
                     yield ("list", t[1][:i] + t[1][i + 1:])
